@@ -1,6 +1,6 @@
 // Go→Lean translator for the boolean, arithmetic and ordering methods of cty/value_ops.go (properties C02, C01,
 // C04): Value.Not, And, Or, Negate, Absolute, Add, Subtract, Multiply, Divide, Modulo, LessThan, GreaterThan,
-// LessThanOrEqualTo, GreaterThanOrEqualTo, and the helpers mustTypeCheck / forceShortCircuitType of helper.go.
+// LessThanOrEqualTo, GreaterThanOrEqualTo, and the helpers typeCheck / mustTypeCheck / forceShortCircuitType of helper.go.
 // It writes lean/CtyModel/Generated/OpsFns.lean; Lemmas/OpsFnsTie.lean proves every generated definition equal to
 // the hand-written transliteration (CtyModel/Ops.lean, Ops2.lean), so the C02 theorems are re-checked against
 // what the source says on every run.
@@ -10,11 +10,14 @@
 //
 //	statements   x := e | x = e | a, b := <call answering a pair> (either side may be _) | { … }
 //	             if [init;] c {…} [else …]   (an `if` whose branches only assign is an if-EXPRESSION per variable)
-//	             return e | panic(e) | z.M(…) for a *big.Float z made fresh in this body (M writes z)
+//	             return e | return e1, e2 | panic(e) | z.M(…) for a *big.Float z made fresh in this body (M writes z)
+//	             for i, v := range <...Value parameter> {…}  (a structurally recursive helper; `continue` allowed;
+//	             no break, labels or nesting; the index may only occur in error texts) | _, ok := v.v.(*unknownType)
 //	expressions  identifiers, nil, true/false, integer literals, the package-level values True False Zero
 //	             PositiveInfinity NegativeInfinity DynamicVal and types Bool Number String DynamicPseudoType,
 //	             !, &&, ||, ==/!= (pointer or error against nil, Value against True/False, Type against a named type),
 //	             <, >, <=, >= on integers, *p, &x, p.ty, v.v.(bool), v.v.(*big.Float), new(big.Float), &big.Float{},
+//	             fmt.Errorf(format, …) (read as the constant head of the format; arguments not evaluated),
 //	             calls of the translated methods (also on each other: a strongly connected group shares one fuel),
 //	             calls of the GIVEN API (tables below; defined in lean/CtyModel/OpsGo.lean)
 //
@@ -258,10 +261,10 @@ func (e opEnv) with(k string, v opVal) opEnv {
 }
 
 type opCtx struct {
-	t    *opTr
-	u    *opUnit
-	used map[string]bool
-	hint []string // Go names of the variables that receive the answer of the call being translated
+	t        *opTr
+	u        *opUnit
+	used     map[string]bool
+	hint     []string           // Go names of the variables that receive the answer of the call being translated
 	loopCont func(opEnv) string // inside a range loop: the next iteration
 }
 
@@ -278,7 +281,7 @@ func (c *opCtx) fresh(base string) string {
 	return n
 }
 
-var leanReserved = map[string]bool{"fuel": true, "at": true, "end": true, "from": true, "have": true, "show": true, "then": true, "else": true, "if": true, "fun": true, "let": true, "in": true, "do": true, "match": true, "with": true, "open": true, "where": true, "instance": true, "by": true, "work": false}
+var leanReserved = map[string]bool{"fuel": true, "at": true, "end": true, "from": true, "have": true, "show": true, "then": true, "else": true, "if": true, "fun": true, "let": true, "in": true, "do": true, "match": true, "with": true, "open": true, "where": true, "instance": true, "by": true}
 
 func opCallHole(key string) string { return "«" + key + "»" }
 
@@ -355,37 +358,6 @@ func opRetType(rets []oShape) string {
 }
 
 // ---------------------------------------------------------------- statements
-
-func opTerminates(list []ast.Stmt) bool {
-	if len(list) == 0 {
-		return false
-	}
-	switch s := list[len(list)-1].(type) {
-	case *ast.ReturnStmt:
-		return true
-	case *ast.ExprStmt:
-		if call, ok := s.X.(*ast.CallExpr); ok {
-			if id, ok := call.Fun.(*ast.Ident); ok && id.Name == "panic" {
-				return true
-			}
-		}
-	case *ast.BlockStmt:
-		return opTerminates(s.List)
-	case *ast.IfStmt:
-		if s.Else == nil {
-			return false
-		}
-		var el []ast.Stmt
-		switch e := s.Else.(type) {
-		case *ast.BlockStmt:
-			el = e.List
-		default:
-			el = []ast.Stmt{e}
-		}
-		return opTerminates(s.Body.List) && opTerminates(el)
-	}
-	return false
-}
 
 // opOnlyAssigns: the statements are plain assignments `x = e` to variables of the enclosing scope
 func opOnlyAssigns(list []ast.Stmt) bool {
